@@ -63,8 +63,9 @@ Proof.
   unfold trilin, trilin_core, cell, u_interp3d_v.
   cbv beta iota zeta delta [nleb nsub nmul nadd ndiv nabs nofZ NumR]. cbn [fst snd].
   name_selection u Eu.
-  rewrite ?(axis_dim _ _ Ax), ?(axis_dim _ _ Ay), ?(axis_dim _ _ Az),
-          ?(dim3_0 v _ _ _ Sv), ?(dim3_1 v _ _ _ Sv), ?(dim3_2 v _ _ _ Sv) in Eu |- *.
+  rewrite (axis_dim x nx Ax), (axis_dim y ny Ay), (axis_dim z nz Az).
+  rewrite ?(axis_dim x nx Ax), ?(axis_dim y ny Ay), ?(axis_dim z nz Az),
+          ?(dim3_0 v nx ny nz Sv), ?(dim3_1 v nx ny nz Sv), ?(dim3_2 v nx ny nz Sv) in Eu.
   rewrite (proj2 (Rleb_true _ _) Hx0), (proj2 (Rleb_true _ _) Hx1),
           (proj2 (Rleb_true _ _) Hy0), (proj2 (Rleb_true _ _) Hy1),
           (proj2 (Rleb_true _ _) Hz0), (proj2 (Rleb_true _ _) Hz1).
@@ -305,6 +306,75 @@ Proof.
   unfold trilin. rewrite !Ht by lia. unfold trilin_core. ring.
 Qed.
 
+(* ================================================================== *)
+(* 5. concrete transposes; composing the two transpositions             *)
+(* ================================================================== *)
+Definition transpose3_xy (v : arr R) : arr R :=
+  tab3 (dim v 1%nat) (dim v 0%nat) (dim v 2%nat) (fun j i k => get 0 v [i; j; k]).
+Definition transpose3_yz (v : arr R) : arr R :=
+  tab3 (dim v 0%nat) (dim v 2%nat) (dim v 1%nat) (fun i k j => get 0 v [i; j; k]).
+
+Lemma transpose3_xy_spec (v : arr R) nx ny nz : (0 <= nx)%Z -> (0 <= ny)%Z -> (0 <= nz)%Z ->
+  shape v = [nx; ny; nz] ->
+  wf (transpose3_xy v) /\ shape (transpose3_xy v) = [ny; nx; nz] /\
+  forall i j k, (0 <= i < nx)%Z -> (0 <= j < ny)%Z -> (0 <= k < nz)%Z ->
+    get 0 (transpose3_xy v) [j; i; k] = get 0 v [i; j; k].
+Proof.
+  intros Hx Hy Hz Sv. unfold transpose3_xy.
+  rewrite (dim3_0 v _ _ _ Sv), (dim3_1 v _ _ _ Sv), (dim3_2 v _ _ _ Sv).
+  split; [apply wf_tab3; assumption|]. split; [reflexivity|].
+  intros i j k Hi Hj Hk. rewrite get_tab3 by assumption. reflexivity.
+Qed.
+
+Lemma transpose3_yz_spec (v : arr R) nx ny nz : (0 <= nx)%Z -> (0 <= ny)%Z -> (0 <= nz)%Z ->
+  shape v = [nx; ny; nz] ->
+  wf (transpose3_yz v) /\ shape (transpose3_yz v) = [nx; nz; ny] /\
+  forall i j k, (0 <= i < nx)%Z -> (0 <= j < ny)%Z -> (0 <= k < nz)%Z ->
+    get 0 (transpose3_yz v) [i; k; j] = get 0 v [i; j; k].
+Proof.
+  intros Hx Hy Hz Sv. unfold transpose3_yz.
+  rewrite (dim3_0 v _ _ _ Sv), (dim3_1 v _ _ _ Sv), (dim3_2 v _ _ _ Sv).
+  split; [apply wf_tab3; assumption|]. split; [reflexivity|].
+  intros i j k Hi Hj Hk. rewrite get_tab3 by assumption. reflexivity.
+Qed.
+
+Section Permutations.
+Variables (x y z v : arr R) (nx ny nz : Z) (xq yq zq fval : R).
+Hypothesis Ax : axis x nx.
+Hypothesis Ay : axis y ny.
+Hypothesis Az : axis z nz.
+Hypothesis Sv : shape v = [nx; ny; nz].
+
+Corollary interp3d_axis_swap_xy_transpose :
+  u_interp3d_v x y z v xq yq zq fval = u_interp3d_v y x z (transpose3_xy v) yq xq zq fval.
+Proof.
+  pose proof (axis_n _ _ Ax). pose proof (axis_n _ _ Ay). pose proof (axis_n _ _ Az).
+  destruct (transpose3_xy_spec v nx ny nz ltac:(lia) ltac:(lia) ltac:(lia) Sv) as (_ & St & Gt).
+  apply (interp3d_axis_swap x y z v (transpose3_xy v) nx ny nz); assumption.
+Qed.
+
+Corollary interp3d_axis_swap_yz_transpose :
+  u_interp3d_v x y z v xq yq zq fval = u_interp3d_v x z y (transpose3_yz v) xq zq yq fval.
+Proof.
+  pose proof (axis_n _ _ Ax). pose proof (axis_n _ _ Ay). pose proof (axis_n _ _ Az).
+  destruct (transpose3_yz_spec v nx ny nz ltac:(lia) ltac:(lia) ltac:(lia) Sv) as (_ & St & Gt).
+  apply (interp3d_axis_swap_yz x y z v (transpose3_yz v) nx ny nz); assumption.
+Qed.
+End Permutations.
+
+(* the two transpositions compose: a cyclic permutation of the axes (the remaining permutations likewise) *)
+Corollary interp3d_axis_cycle (x y z v : arr R) (nx ny nz : Z) (xq yq zq fval : R) :
+  axis x nx -> axis y ny -> axis z nz -> shape v = [nx; ny; nz] ->
+  u_interp3d_v x y z v xq yq zq fval =
+  u_interp3d_v y z x (transpose3_yz (transpose3_xy v)) yq zq xq fval.
+Proof.
+  intros Ax Ay Az Sv.
+  pose proof (axis_n _ _ Ax). pose proof (axis_n _ _ Ay). pose proof (axis_n _ _ Az).
+  destruct (transpose3_xy_spec v nx ny nz ltac:(lia) ltac:(lia) ltac:(lia) Sv) as (_ & St & _).
+  rewrite (interp3d_axis_swap_xy_transpose x y z v nx ny nz xq yq zq fval Ax Ay Az Sv).
+  apply (interp3d_axis_swap_yz_transpose y x z (transpose3_xy v) ny nx nz); assumption.
+Qed.
+
 Print Assumptions interp3d_outside.
 Print Assumptions interp3d_spec.
 Print Assumptions interp3d_node.
@@ -314,3 +384,4 @@ Print Assumptions interp3d_continuous_faces.
 Print Assumptions interp3d_spec_any_cell.
 Print Assumptions interp3d_axis_swap.
 Print Assumptions interp3d_axis_swap_yz.
+Print Assumptions interp3d_axis_cycle.
